@@ -80,26 +80,26 @@ structure PubKey where
 structure Prims (M S : Type) where
   parses    : PubKey → Bool            -- crypto.DecompressPubkey / btcec.ParsePubKey succeed
   hashAddr  : PubKey → Bytes           -- tendermint Address() / crypto.PubkeyToAddress
-  sigVerify : PubKey → M → S → Bool    -- the VerifyBytes of the ED25519 / SECP256K1 / ETHSECP handler
+  sigVerify : PubKey → M → S → Bool    -- the library verification behind VerifyBytes (all four handlers)
 
 def ED25519_PUB_SIZE : Nat := 32
 def SECP256K1_PUB_SIZE : Nat := 33
 
 /-- `pubKey.GetHandler()` followed by `h.Address()`; `none` = GetHandler returned an error.
-    `PublicKeyBTCEC.Address()` returns nil. -/
+    (Since the fix "BTCEC public keys verify signatures and have an address" the BTCEC handler is
+    an ordinary one: address = hash of the compressed key.) -/
 def keyAddr {M S : Type} (p : Prims M S) (pk : PubKey) : Option Bytes :=
   match pk.alg with
   | .ed25519   => if pk.data.length = ED25519_PUB_SIZE then some (p.hashAddr pk) else none
   | .secp256k1 => if pk.data.length = SECP256K1_PUB_SIZE then some (p.hashAddr pk) else none
   | .ethsecp   => if p.parses pk then some (p.hashAddr pk) else none
-  | .btcec     => if p.parses pk then some [] else none
+  | .btcec     => if p.parses pk then some (p.hashAddr pk) else none
   | .unknown   => none
 
-/-- `h.VerifyBytes(msg, sig)`; `PublicKeyBTCEC.VerifyBytes` returns true. -/
+/-- `h.VerifyBytes(msg, sig)`: every handler calls its library's verification
+    (BTCEC: `btcec.ParseDERSignature` + `Verify`) -/
 def keyVerify {M S : Type} (p : Prims M S) (pk : PubKey) (m : M) (s : S) : Bool :=
-  match pk.alg with
-  | .btcec => true
-  | _ => p.sigVerify pk m s
+  p.sigVerify pk m s
 
 /-- `ValidateBasic` as the application runs it -/
 def validateBasicK {M S : Type} (p : Prims M S) (data : M) (signers : List Bytes)
@@ -371,16 +371,22 @@ inductive VClass where
   | basic | ethSigner | rejectAll | unchecked
   deriving DecidableEq, Repr
 
-/-- the part of an OLVM payload `validateSigner` and the memo rule look at; `eth` is the
-    go-ethereum legacy transaction `tmToEthTx` builds from (nonce, to, value, data) of the payload
-    and (gas, price value) of the fee, `extra` is what it does not carry (payload `type`,
-    `accessList`, amount currency); `chainID = none` is a payload without `chainID` (nil *big.Int) -/
-structure OlvmView (A E X : Type) where
+/-- what of an OLVM payload lies outside the Ethereum transaction `tmToEthTx` builds: the
+    fields `type` and `accessList` (`hasAccessList` = the pointer is not nil) -/
+structure OlvmExtra where
+  txType        : Int
+  hasAccessList : Bool
+  deriving DecidableEq, Repr
+
+/-- the part of an OLVM payload `validateSigner`, the envelope checks and the memo rule look at;
+    `eth` is the go-ethereum legacy transaction built from (nonce, to, value, data) of the payload
+    and (gas, price value) of the fee; `chainID = none` is a payload without `chainID` -/
+structure OlvmView (A E : Type) where
   nonce   : Nat
   sender  : A          -- payload `from`
   chainID : Option Int -- payload `chainID`
   eth     : E
-  extra   : X
+  extra   : OlvmExtra
 
 /-- go-ethereum as `validateSigner` uses it: length of the signature bytes, the chain id
     `Transaction.ChainId()` derives from the recovery byte after `WithSignature`, and
@@ -395,32 +401,46 @@ inductive OlvmVerdict where
   deriving DecidableEq, Repr
 
 /-- the memo rule of `olvmTx.Validate`: `strconv.ParseUint(memo, 10, 0)` succeeds (non-empty,
-    decimal digits only — no sign, no underscore — any number of leading zeros, value below
-    2^64) and equals the payload nonce -/
+    decimal digits only, value below 2^64), equals the payload nonce, AND the memo is exactly
+    `strconv.FormatUint(nonce, 10)` (no leading zeros: the memo is outside the signature) -/
 def memoIsNonce (memo : List Char) (nonce : Nat) : Bool :=
-  !memo.isEmpty && memo.all isDig && digitsVal memo == nonce && decide (digitsVal memo < 2 ^ 64)
+  !memo.isEmpty && memo.all isDig && digitsVal memo == nonce && decide (digitsVal memo < 2 ^ 64) &&
+  decide (memo = natDigits nonce)
 
-/-- `Transaction.validateSigner` + the memo rule of `olvmTx.Validate`, in the order of the code:
-    exactly one signature; `ethTx.WithSignature(signer, sig)` — go-ethereum's `decodeSignature`
-    PANICS unless the signature has 65 bytes; `ethTx.ChainId().Cmp(tx.ChainID)` — a nil
-    `tx.ChainID` is dereferenced (PANIC); chain ids equal; `signer.Sender`; sender equal to
-    `from`; later the memo must parse to the nonce.  A panic in CheckTx/DeliverTx is caught by
-    `handlePanic`, which closes the application. -/
-def olvmSig {A E X S PK : Type} [DecidableEq A] (lib : EthLib A E S)
-    (v : OlvmView A E X) (memo : List Char) (sigs : List (Sig PK S)) : OlvmVerdict :=
+/-- `Transaction.validateSigner` + the envelope and memo rules of `olvmTx.Validate`, in the order
+    of the code: exactly one signature; chain id present; signature of 65 bytes (both checked
+    before `WithSignature`, which would panic / dereference nil otherwise); chain id derived from
+    the recovery byte equal to the payload's; `signer.Sender`; sender equal to `from`; the public
+    key of the signature entry has a handler whose address is `from` (`addrOf`); payload `type`
+    is 0 and `accessList` is nil; the memo is the canonical decimal spelling of the nonce.
+    No path panics any more (`.panic` is kept in the verdict type so that the harness can report
+    an application that closed itself; `olvm_never_panics` shows the model never answers it). -/
+def olvmSig {A E S PK : Type} [DecidableEq A] (lib : EthLib A E S) (addrOf : PK → Option A)
+    (v : OlvmView A E) (memo : List Char) (sigs : List (Sig PK S)) : OlvmVerdict :=
   match sigs with
   | [g] =>
-    if lib.sigLen g.signed ≠ 65 then .panic
-    else
-      match v.chainID with
-      | none => .panic
-      | some c =>
-        if lib.chainOf g.signed ≠ c then .reject
-        else
-          match lib.sender v.eth g.signed with
-          | none => .reject
-          | some a => if a = v.sender ∧ memoIsNonce memo v.nonce = true then .ok else .reject
+    match v.chainID with
+    | none => .reject
+    | some c =>
+      if lib.sigLen g.signed ≠ 65 then .reject
+      else if lib.chainOf g.signed ≠ c then .reject
+      else
+        match lib.sender v.eth g.signed with
+        | none => .reject
+        | some a =>
+          if a = v.sender ∧ addrOf g.signer = some v.sender ∧ v.extra.txType = 0 ∧
+             v.extra.hasAccessList = false ∧ memoIsNonce memo v.nonce = true then .ok else .reject
   | _ => .reject
+
+/-- `olvmTx.Validate` from the payload BYTES `d`: `tx.Unmarshal(d)` (`decode`, none = error), then
+    only the encoding `tx.Marshal()` produces is accepted (`encode v = d`; fix "OLVM accepts only
+    the canonical encoding of its payload"), then `olvmSig` -/
+def olvmValidate {A E S PK B : Type} [DecidableEq A] [DecidableEq B] (lib : EthLib A E S)
+    (addrOf : PK → Option A) (decode : B → Option (OlvmView A E)) (encode : OlvmView A E → B)
+    (d : B) (memo : List Char) (sigs : List (Sig PK S)) : OlvmVerdict :=
+  match decode d with
+  | none => .reject
+  | some v => if encode v ≠ d then .reject else olvmSig lib addrOf v memo sigs
 
 /-- the signature part of `Validate` for a kind of class `cls`:
     `signersOf raw = none` is `msg.Unmarshal(tx.Data)` failing, otherwise `msg.Signers()` -/
